@@ -75,7 +75,7 @@ class CorpusShufflingTool:
         continuum = Continuum()
         continuum._categories = SortedSet(self._categories)
         continuum.bound_inf, continuum.bound_sup = self._reference_continuum.bounds
-        if isinstance(new_annotators, int):
+        if isinstance(new_annotators, (int, np.integer)):  # a number of annotators, numpy integers included
             new_annotators = [f"annotator_{i}" for i in range(new_annotators)]
         else:
             new_annotators = list(new_annotators)  # any iterable is accepted : it is gone through once per unit
